@@ -17,6 +17,11 @@
 //         face <face options> <chunk bits> <glyph count of maxp> <Silf hex> <Gloc hex> <Glat hex> <Feat hex> <Sill hex>     (- = absent)
 //            gr_make_face_with_ops with these five tables (exact-size buffers) and the other tables of the base font, then gr_face_destroy
 //            -> fault | compressed | noface | ok <glyphs> <features> <languages> <sub-tables>:<passes of each>
+//         faceall <face options> <chunk bits> <head> <hhea> <hmtx> <maxp> <glyf> <loca> <cmap> <Silf> <Gloc> <Glat> <Feat> <Sill>   (hex, - = absent)
+//            gr_make_face_with_ops with these twelve tables (exact-size buffers) -> as `face`
+//         name <platform> <encoding> <hex bytes> <lang.nameId,…>
+//            NameTable on the bytes, then getName(lang, nameId, gr_utf16) for each query
+//            -> fault | notable | ok <platformOffset>,<platformLastRecord>,<nameDataLength> <per query: - | <language found>:<digest of the UTF-16 units>>
 //         gfx <indexToLocFormat> <numLongHorMetrics> <loca hex> <glyf hex|-> <hmtx hex> <gid,…>
 //            the graphics half of Loader::read_glyph (LocaLookup, GlyfLookup, GlyfBox, HorMetrics) on exact-size buffers (glyf >= 10 bytes or absent,
 //            hmtx >= 4 bytes: what Face::Table hands out)  -> per gid: F (inverted box: read_glyph fails) | <xMin,yMin,xMax,yMax or ->/<advance or ->
@@ -44,6 +49,7 @@
 #include "inc/FileFace.h"
 #include "inc/GlyphFace.h"
 #include "inc/Sparse.h"
+#include "inc/NameTable.h"
 #include "inc/TtfUtil.h"
 #include "inc/Code.h"
 #include "inc/Machine.h"
@@ -105,9 +111,13 @@ static bool face_matches(const Face *face, const std::vector<std::string> &w, si
 }
 
 struct TableCtx { FileFace *ff; const uint8_t *silf; size_t silf_len; const uint8_t *gloc; size_t gloc_len; const uint8_t *glat; size_t glat_len;
-                  const uint8_t *feat; size_t feat_len; const uint8_t *sill; size_t sill_len; bool all; };
+                  const uint8_t *feat; size_t feat_len; const uint8_t *sill; size_t sill_len; bool all;
+                  const uint8_t *gfx[7]; size_t gfx_len[7]; bool gfx_on; };
+static const unsigned GFX_TAGS[7] = { Tag::head, Tag::hhea, Tag::hmtx, Tag::maxp, Tag::glyf, Tag::loca, Tag::cmap };
 static const void *ctx_get_table(const void *h, unsigned int name, size_t *len) {
     const TableCtx *c = static_cast<const TableCtx *>(h);
+    if (c->gfx_on)
+        for (int k = 0; k < 7; ++k) if (name == GFX_TAGS[k]) { *len = c->gfx_len[k]; return c->gfx_len[k] ? c->gfx[k] : 0; }
     if (c->all) {     // the five Graphite tables all come from the line; an empty one is absent
         const uint8_t *p = 0; size_t n = 0; bool mine = true;
         if (name == Tag::Silf) { p = c->silf; n = c->silf_len; } else if (name == Tag::Gloc) { p = c->gloc; n = c->gloc_len; }
@@ -123,6 +133,7 @@ static const void *ctx_get_table(const void *h, unsigned int name, size_t *len) 
 static void ctx_rel_table(const void *h, const void *p) {
     const TableCtx *c = static_cast<const TableCtx *>(h);
     if (p == c->silf || p == c->gloc || p == c->glat || p == c->feat || p == c->sill) return;
+    if (c->gfx_on) for (int k = 0; k < 7; ++k) if (p == c->gfx[k]) return;
     (*FileFace::ops.release_table)(c->ff, p);
 }
 
@@ -181,7 +192,7 @@ int main(int argc, char **argv) {
             unsigned opts = atoi(w[1].c_str());
             Exact eloc(b), elat(b2);
             FileFace *ff = new FileFace(argv[1]);
-            TableCtx ctx = { ff, 0, 0, eloc.p, b.size(), elat.p, b2.size(), 0, 0, 0, 0, false };
+            TableCtx ctx = { ff, 0, 0, eloc.p, b.size(), elat.p, b2.size(), 0, 0, 0, 0, false, {0, 0, 0, 0, 0, 0, 0}, {0, 0, 0, 0, 0, 0, 0}, false };
             const gr_face_ops ops = { sizeof(gr_face_ops), &ctx_get_table, &ctx_rel_table };
             Face *f = new Face(&ctx, ops);
             {
@@ -216,6 +227,68 @@ int main(int argc, char **argv) {
             }
             delete f;
             delete ff;
+            if (g_faults) out = "fault";
+        } else if (w.size() == 5 && w[0] == "name" && parse_hex(w[3], b)) {
+            // NameTable(data, length, platform, encoding) – it works on its own exact-size copy – and getName(lang, nameId, gr_utf16) per query
+            unsigned pl = atoi(w[1].c_str()), en = atoi(w[2].c_str());
+            Exact e(b);
+            {
+                NameTable nt(e.p, b.size(), (uint16)pl, (uint16)en);
+                if (g_faults) out = "fault";
+                else if (!nt.m_table) out = "notable";
+                else {
+                    snprintf(buf, sizeof buf, "ok %u,%u,%u", (unsigned)nt.m_platformOffset, (unsigned)nt.m_platformLastRecord, (unsigned)nt.m_nameDataLength);
+                    out = buf;
+                    std::stringstream qs(w[4]); std::string q;
+                    while (std::getline(qs, q, ',')) {
+                        size_t dot = q.find('.');
+                        if (dot == std::string::npos) continue;
+                        uint16 lang = (uint16)atoi(q.substr(0, dot).c_str());
+                        uint16 nid = (uint16)atoi(q.substr(dot + 1).c_str());
+                        uint32 len = 0;
+                        void *p = nt.getName(lang, nid, gr_utf16, len);
+                        if (!p) out += " -";
+                        else {
+                            std::vector<unsigned> us;
+                            for (uint32 k = 0; k < len; ++k) us.push_back(static_cast<uint16 *>(p)[k]);
+                            snprintf(buf, sizeof buf, " %u:", (unsigned)lang);
+                            out += buf + digestv(us);
+                            free(p);
+                        }
+                    }
+                }
+            }
+            if (g_faults) out = "fault";
+        } else if (w.size() == 15 && w[0] == "faceall") {
+            // gr_make_face_with_ops with head hhea hmtx maxp glyf loca cmap Silf Gloc Glat Feat Sill from the line (exact-size buffers, empty = absent);
+            // whatever else is asked for from the base font
+            std::vector<uint8_t> t[12];
+            bool okp = true;
+            for (int k = 0; k < 12; ++k) okp = okp && parse_hex(w[3 + k], t[k]);
+            if (!okp || strtoul(w[2].c_str(), 0, 10) != sparse::SIZEOF_CHUNK) { puts("bad-op"); fflush(stdout); continue; }
+            auto compressed = [](const std::vector<uint8_t> &x, unsigned minv) {
+                return x.size() >= 8 && ((unsigned)(x[0] << 24 | x[1] << 16 | x[2] << 8 | x[3]) >= minv) && (x[4] >> 3) != 0; };
+            if (compressed(t[7], 0x00050000u) || compressed(t[9], 0x00030000u)) { puts("compressed"); fflush(stdout); continue; }
+            unsigned opts = atoi(w[1].c_str());
+            std::vector<Exact *> ex;
+            for (int k = 0; k < 12; ++k) ex.push_back(new Exact(t[k]));
+            FileFace *ff = new FileFace(argv[1]);
+            TableCtx ctx = { ff, ex[7]->p, t[7].size(), ex[8]->p, t[8].size(), ex[9]->p, t[9].size(), ex[10]->p, t[10].size(), ex[11]->p, t[11].size(), true,
+                             { ex[0]->p, ex[1]->p, ex[2]->p, ex[3]->p, ex[4]->p, ex[5]->p, ex[6]->p },
+                             { t[0].size(), t[1].size(), t[2].size(), t[3].size(), t[4].size(), t[5].size(), t[6].size() }, true };
+            const gr_face_ops ops = { sizeof(gr_face_ops), &ctx_get_table, &ctx_rel_table };
+            gr_face *nf = gr_make_face_with_ops(&ctx, &ops, opts);
+            if (g_faults) out = "fault";
+            else if (!nf) out = "noface";
+            else {
+                const Face *F = static_cast<const Face *>(nf);
+                snprintf(buf, sizeof buf, "ok %u %u %u %u:", (unsigned)gr_face_n_glyphs(nf), (unsigned)F->numFeatures(), (unsigned)gr_face_n_languages(nf), (unsigned)F->m_numSilf);
+                out = buf;
+                for (unsigned k = 0; k < F->m_numSilf; ++k) { snprintf(buf, sizeof buf, "%s%u", k ? "," : "", (unsigned)F->m_silfs[k].numPasses()); out += buf; }
+            }
+            if (nf) gr_face_destroy(nf);
+            delete ff;
+            for (auto e : ex) delete e;
             if (g_faults) out = "fault";
         } else if (w.size() == 7 && w[0] == "gfx") {
             // TtfUtil::LocaLookup / GlyfLookup / GlyfBox / HorMetrics as Loader::read_glyph uses them, on exact-size loca, glyf and hmtx buffers
@@ -268,7 +341,7 @@ int main(int argc, char **argv) {
             unsigned opts = atoi(w[1].c_str());
             Exact e0(t[0]), e1(t[1]), e2(t[2]), e3(t[3]), e4(t[4]);
             FileFace *ff = new FileFace(argv[1]);
-            TableCtx ctx = { ff, e0.p, t[0].size(), e1.p, t[1].size(), e2.p, t[2].size(), e3.p, t[3].size(), e4.p, t[4].size(), true };
+            TableCtx ctx = { ff, e0.p, t[0].size(), e1.p, t[1].size(), e2.p, t[2].size(), e3.p, t[3].size(), e4.p, t[4].size(), true, {0, 0, 0, 0, 0, 0, 0}, {0, 0, 0, 0, 0, 0, 0}, false };
             const gr_face_ops ops = { sizeof(gr_face_ops), &ctx_get_table, &ctx_rel_table };
             gr_face *nf = gr_make_face_with_ops(&ctx, &ops, opts);
             if (g_faults) out = "fault";
@@ -338,7 +411,7 @@ int main(int argc, char **argv) {
             if (b.size() >= 8 && ((b[0] << 24 | b[1] << 16 | b[2] << 8 | b[3]) >= 0x00050000u) && (b[4] >> 3) != 0) { puts("compressed"); fflush(stdout); continue; }
             Exact e(b);
             FileFace *ff = new FileFace(argv[1]);
-            TableCtx ctx = { ff, e.p, b.size(), 0, 0, 0, 0, 0, 0, 0, 0, false };
+            TableCtx ctx = { ff, e.p, b.size(), 0, 0, 0, 0, 0, 0, 0, 0, false, {0, 0, 0, 0, 0, 0, 0}, {0, 0, 0, 0, 0, 0, 0}, false };
             const gr_face_ops ops = { sizeof(gr_face_ops), &ctx_get_table, &ctx_rel_table };
             Face *f = new Face(&ctx, ops);
             {
